@@ -101,6 +101,32 @@ def t_independent(h):
     h.prove((not out2.ok) and out2.exc == 'TypeError', 'dna_to_hp.other-types-rejected')
 
 
+def t_frame(h):
+    """mechanical frame condition: the decoder reads no mutable module-level state (a memo, a counter ...), so its result is a
+    function of its arguments only - whatever was decoded earlier in the same process"""
+    import builtins
+    bnames = set(dir(builtins))
+    for qual in ('jesse.helpers.dna_to_hp', 'jesse.helpers.convert_number'):
+        f = h.repo.find(qual)
+        node = f.node
+        local = {a.arg for a in node.args.args + node.args.kwonlyargs + node.args.posonlyargs}
+        for n in ast.walk(node):
+            if isinstance(n, ast.Name) and isinstance(n.ctx, (ast.Store, ast.Del)):
+                local.add(n.id)
+        bad = []
+        uses_global_stmt = any(isinstance(n, (ast.Global, ast.Nonlocal)) for n in ast.walk(node))
+        for n in ast.walk(node):
+            if isinstance(n, ast.Name) and isinstance(n.ctx, ast.Load) and n.id not in local and n.id not in bnames:
+                ent = f.mod.top.get(n.id)
+                if isinstance(ent, (ast.FunctionDef, ast.ClassDef)) or (isinstance(ent, tuple) and ent[0] in ('import', 'from')):
+                    continue        # functions, classes, imported modules / names
+                if isinstance(ent, (ast.Assign, ast.AnnAssign)) and isinstance(ent.value, ast.Constant):
+                    continue        # immutable constants
+                bad.append(n.id)
+        h.prove(bad == [] and not uses_global_stmt, f'frame.{qual.split(".")[-1]}.reads-no-mutable-module-level-state',
+                {'module_level_names_read': sorted(set(bad)), 'global_statement': uses_global_stmt})
+
+
 def t_alphabet(h):
     f = h.repo.find('jesse.modes.optimize_mode.Optimize.Optimizer.__init__')
     a = f.node.args
@@ -169,7 +195,7 @@ def tasks(tier):
     x = dict(spec_mod=SPEC)
     ov = stubs.backtest_mode()
     ts = [Task('float', t_float, extra=x), Task('int', t_int, extra=x), Task('independent', t_independent, extra=x),
-          Task('alphabet', t_alphabet, extra=x)]
+          Task('alphabet', t_alphabet, extra=x), Task('frame', t_frame, extra=x)]
     for e in (False, True):
         for d in (False, True):
             for c in (False, True):
